@@ -96,6 +96,31 @@ func glueCheck(body []byte, lst int, lout []byte) {
 	}
 }
 
+// glueSweeps: checks whose stages call the library directly get a sweep of whole requests of their own methods /
+// biases through the handler at the end of the run (the PRNG is used after every other case, so the cases of
+// the property itself are unchanged)
+var glueSweeps = map[string]struct{ methods, biases []string }{
+	"C03": {[]string{"weightedSum", "owa", "choquetIntegral"}, []string{"criteriaOmission", "preferenceReversal", "fatigue"}},
+	"C05": {[]string{"electreIII"}, nil},
+	"C06": {[]string{"electreIII"}, nil},
+	"C11": {[]string{"majorityHeuristic"}, nil},
+	"C12": {[]string{"aspectEliminationHeuristic"}, nil},
+	"C13": {[]string{"satisfactionHeuristic"}, nil},
+	"C14": {[]string{"aspectEliminationHeuristic", "satisfactionHeuristic"}, nil},
+	"C16": {nil, []string{"preferenceReversal", "fatigue"}},
+	"C17": {nil, []string{"fatigue", "preferenceReversal"}},
+	"C18": {[]string{"weightedSum", "electreIII", "majorityHeuristic", "aspectEliminationHeuristic", "satisfactionHeuristic"}, []string{"criteriaConcealment", "criteriaMixing", "criteriaOmission"}},
+	"C19": {nil, []string{"anchoring", "fatigue"}},
+}
+
+func glueSweep(o *Out, r *Rng, methods, biases []string, n int) {
+	for i := 0; i < n; i++ {
+		q := genRequest(r, ReqOpts{Methods: methods, Biases: biases, MaxBiases: 2})
+		decideJSON(q.JSON())
+	}
+	o.count("handler-glue:sweep=" + itoa(n))
+}
+
 // glueReport: emitted once at the end of a property run
 func glueReport(o *Out) {
 	glue.Lock()
